@@ -1,41 +1,139 @@
-//! notify API subset: no OS watcher; events are injected by the harness.
+//! notify 6.1 API over no OS watcher at all: events are injected by the harness.
+//! `event.rs`, `error.rs` and `config.rs` are the files of notify 6.1.1 itself (CC0-1.0), so that the
+//! event, error and configuration types -- everything the code under test can name -- are exactly the
+//! real ones; only the watcher back-end is replaced.
+#![allow(unexpected_cfgs, dead_code, missing_docs)]
 use std::path::{Path, PathBuf};
 use std::sync::Mutex;
-#[derive(Debug)] pub struct Error(pub String);
-impl std::fmt::Display for Error { fn fmt(&self, f: &mut std::fmt::Formatter) -> std::fmt::Result { f.write_str(&self.0) } }
-impl std::error::Error for Error {}
-pub type Result<T> = std::result::Result<T, Error>;
-#[derive(Debug, Clone, Copy, PartialEq, Eq)] pub enum AccessKind { Any, Read, Open, Close, Other }
-#[derive(Debug, Clone, Copy, PartialEq, Eq)] pub enum CreateKind { Any, File, Folder, Other }
-#[derive(Debug, Clone, Copy, PartialEq, Eq)] pub enum RenameMode { Any, To, From, Both, Other }
-#[derive(Debug, Clone, Copy, PartialEq, Eq)] pub enum ModifyKind { Any, Data, Metadata, Name(RenameMode), Other }
-#[derive(Debug, Clone, Copy, PartialEq, Eq)] pub enum RemoveKind { Any, File, Folder, Other }
-#[derive(Debug, Clone, Copy, PartialEq, Eq)] pub enum EventKind { Any, Access(AccessKind), Create(CreateKind), Modify(ModifyKind), Remove(RemoveKind), Other }
-#[derive(Debug, Clone)] pub struct Event { pub kind: EventKind, pub paths: Vec<PathBuf> }
-pub trait EventHandler: Send + 'static { fn handle_event(&mut self, event: Result<Event>); }
-#[derive(Debug, Clone, Copy)] pub enum RecursiveMode { Recursive, NonRecursive }
+
+pub mod config;
+pub mod error;
+pub mod event;
+pub use config::{Config, RecursiveMode};
+pub use error::{Error, ErrorKind, Result};
+pub use event::{Event, EventKind};
+// the harnesses name the kinds through the crate root
+pub use event::{AccessKind, AccessMode, CreateKind, DataChange, MetadataKind, ModifyKind, RemoveKind, RenameMode};
+
+pub trait EventHandler: Send + 'static {
+    fn handle_event(&mut self, event: Result<Event>);
+}
+impl<F> EventHandler for F
+where
+    F: FnMut(Result<Event>) + Send + 'static,
+{
+    fn handle_event(&mut self, event: Result<Event>) {
+        (self)(event);
+    }
+}
+impl EventHandler for crossbeam_channel::Sender<Result<Event>> {
+    fn handle_event(&mut self, event: Result<Event>) {
+        let _ = self.send(event);
+    }
+}
+impl EventHandler for std::sync::mpsc::Sender<Result<Event>> {
+    fn handle_event(&mut self, event: Result<Event>) {
+        let _ = self.send(event);
+    }
+}
+
+#[derive(Debug, Clone, Copy, PartialEq, Eq, Hash)]
+#[non_exhaustive]
+pub enum WatcherKind {
+    Inotify,
+    Fsevent,
+    Kqueue,
+    PollWatcher,
+    ReadDirectoryChangesWatcher,
+    NullWatcher,
+}
+
+pub trait Watcher {
+    fn new<F: EventHandler>(event_handler: F, config: Config) -> Result<Self>
+    where
+        Self: Sized;
+    fn watch(&mut self, path: &Path, recursive_mode: RecursiveMode) -> Result<()>;
+    fn unwatch(&mut self, path: &Path) -> Result<()>;
+    fn configure(&mut self, _option: Config) -> Result<bool> {
+        Ok(false)
+    }
+    fn kind() -> WatcherKind
+    where
+        Self: Sized;
+}
+
 static REG: Mutex<Vec<Option<Box<dyn EventHandler>>>> = Mutex::new(Vec::new());
-pub struct RecommendedWatcher { id: usize, pub watched: Vec<PathBuf> }
 /// liveness of the watcher objects (a dropped watcher stops its notify thread: no more events)
 static ALIVE: Mutex<Vec<bool>> = Mutex::new(Vec::new());
-pub fn recommended_watcher<H: EventHandler>(h: H) -> Result<RecommendedWatcher> { let mut r = REG.lock().unwrap(); r.push(Some(Box::new(h))); ALIVE.lock().unwrap().push(true); Ok(RecommendedWatcher { id: r.len() - 1, watched: vec![] }) }
-pub trait Watcher { fn watch(&mut self, path: &Path, mode: RecursiveMode) -> Result<()>; }
-impl Watcher for RecommendedWatcher { fn watch(&mut self, path: &Path, _m: RecursiveMode) -> Result<()> { self.watched.push(path.to_owned()); Ok(()) } }
-impl Drop for RecommendedWatcher { fn drop(&mut self) { if let Some(a) = ALIVE.lock().unwrap().get_mut(self.id) { *a = false; } if let Ok(mut r) = REG.try_lock() { if let Some(slot) = r.get_mut(self.id) { *slot = None; } } } }
+
+#[derive(Debug)]
+pub struct INotifyWatcher {
+    id: usize,
+    pub watched: Vec<PathBuf>,
+}
+pub type RecommendedWatcher = INotifyWatcher;
+
+impl Watcher for INotifyWatcher {
+    fn new<F: EventHandler>(h: F, _config: Config) -> Result<Self> {
+        let mut r = REG.lock().unwrap();
+        r.push(Some(Box::new(h)));
+        ALIVE.lock().unwrap().push(true);
+        Ok(INotifyWatcher { id: r.len() - 1, watched: vec![] })
+    }
+    fn watch(&mut self, path: &Path, _m: RecursiveMode) -> Result<()> {
+        self.watched.push(path.to_owned());
+        Ok(())
+    }
+    fn unwatch(&mut self, path: &Path) -> Result<()> {
+        match self.watched.iter().position(|p| p == path) {
+            Some(i) => {
+                self.watched.remove(i);
+                Ok(())
+            }
+            None => Err(Error::watch_not_found()),
+        }
+    }
+    fn kind() -> WatcherKind {
+        WatcherKind::Inotify
+    }
+}
+pub fn recommended_watcher<F: EventHandler>(event_handler: F) -> Result<RecommendedWatcher> {
+    RecommendedWatcher::new(event_handler, Config::default())
+}
+impl Drop for INotifyWatcher {
+    fn drop(&mut self) {
+        if let Some(a) = ALIVE.lock().unwrap().get_mut(self.id) {
+            *a = false;
+        }
+        if let Ok(mut r) = REG.try_lock() {
+            if let Some(slot) = r.get_mut(self.id) {
+                *slot = None;
+            }
+        }
+    }
+}
+
 pub fn stub_inject(id: usize, ev: Event) {
-    if !stub_alive(id) { return; }
+    if !stub_alive(id) {
+        return;
+    }
     let h = REG.lock().unwrap().get_mut(id).and_then(|s| s.take());
     if let Some(mut h) = h {
         h.handle_event(Ok(ev));
         // the handler may have dropped its own watcher while handling (send failed): then it is gone for good
-        if stub_alive(id) { let mut r = REG.lock().unwrap(); if r[id].is_none() { r[id] = Some(h); } }
+        if stub_alive(id) {
+            let mut r = REG.lock().unwrap();
+            if r[id].is_none() {
+                r[id] = Some(h);
+            }
+        }
     }
 }
 /// is the watcher with this registration index still alive (not dropped by its owner)?
-pub fn stub_alive(id: usize) -> bool { ALIVE.lock().unwrap().get(id).copied().unwrap_or(false) }
-pub fn stub_reset() { REG.lock().unwrap().clear(); ALIVE.lock().unwrap().clear(); }
-
-/// `notify::event::*` paths, as in the real crate.
-pub mod event {
-    pub use super::{AccessKind, CreateKind, Event, EventKind, ModifyKind, RemoveKind, RenameMode};
+pub fn stub_alive(id: usize) -> bool {
+    ALIVE.lock().unwrap().get(id).copied().unwrap_or(false)
+}
+pub fn stub_reset() {
+    REG.lock().unwrap().clear();
+    ALIVE.lock().unwrap().clear();
 }
